@@ -20,6 +20,10 @@ Proof.
     split; [intros X; now elim X|reflexivity].
 Qed.
 
+Lemma do_write_fs_none f off len cnt :
+  do_write_fs fs_none f off len cnt = ([OWrite f off len], len, S cnt, ROk).
+Proof. reflexivity. Qed.
+
 Local Opaque do_write_fs.
 
 (* ------------------------------------------------------------------ sequences of writes *)
@@ -85,7 +89,7 @@ Proof.
   destruct (write_sections_fs fl (ix_sections p) 16 0) as [[[o1 p1] c1] r1] eqn:E1.
   destruct (write_sections_fs_spec _ _ _ _ _ _ _ _ E1) as [T1 [K1 H1]].
   destruct r1.
-  - destruct (K1 eq_refl) as [-> [-> ->]]. simpl in *.
+  - destruct (K1 eq_refl) as [-> [-> ->]]. cbn [Nat.add] in *.
     destruct (do_write_fs fl IndexTmp (16 + sum_N (flat_map snd (ix_sections p))) (reg_size p)
                 (length (flat_map snd (ix_sections p)))) as [[[o2 n2] c2] r2] eqn:E2.
     destruct (do_write_fs_spec _ _ _ _ _ _ _ _ _ E2) as [T2 [K2 [-> [Fa2 Fb2]]]].
@@ -149,46 +153,34 @@ Proof.
   - simpl. split; [|discriminate]. constructor. rewrite <- app_assoc. apply tprefix_app. exact T1.
 Qed.
 
+Lemma write_seq_fs_none f ws : forall pos cnt,
+  write_seq_fs fs_none f pos ws cnt = (seq_ops f pos ws, (pos + sum_N ws)%N, (cnt + length ws)%nat, ROk).
+Proof.
+  induction ws as [|len ws IH]; intros pos cnt; simpl.
+  - now rewrite N.add_0_r, Nat.add_0_r.
+  - rewrite do_write_fs_none, IH, N.add_assoc. simpl.
+    replace (S (cnt + length ws)) with (cnt + S (length ws))%nat by lia. reflexivity.
+Qed.
+
+Lemma write_sections_fs_none secs : forall pos cnt,
+  write_sections_fs fs_none secs pos cnt
+  = (seq_ops IndexTmp pos (flat_map snd secs), (pos + sum_N (flat_map snd secs))%N,
+     (cnt + length (flat_map snd secs))%nat, ROk).
+Proof.
+  induction secs as [|[k ws] secs IH]; intros pos cnt; simpl.
+  - now rewrite N.add_0_r, Nat.add_0_r.
+  - rewrite write_seq_fs_none, IH, seq_ops_app, sum_N_app, N.add_assoc, app_length.
+    replace (cnt + length ws + length (flat_map snd secs))%nat with (cnt + (length ws + length (flat_map snd secs)))%nat by lia.
+    reflexivity.
+Qed.
+
 Lemma seal_fs_none p : seal_fs p fs_none = (seal_ops p, ROk).
 Proof.
-  assert (H : snd (seal_fs p fs_none) = ROk).
-  { unfold seal_fs.
-    destruct (sorted_docs_fs fs_none p) as [o1 r1] eqn:E1.
-    destruct (sorted_docs_fs_spec _ _ _ _ E1) as [_ [_ _]].
-    assert (R1 : r1 = ROk).
-    { unfold sorted_docs_fs in E1. destruct (skip_sort p); [now inversion E1|].
-      destruct (write_seq_fs fs_none SdocsTmp 0 (sd_writes p) 0) as [[[a b] c] d] eqn:E.
-      assert (d = ROk).
-      { clear E1. revert E. generalize 0%N 0%nat. revert a b c d.
-        induction (sd_writes p) as [|x l IH]; intros a b c d pos cnt E; simpl in E; [now inversion E|].
-        Local Transparent do_write_fs. unfold do_write_fs, fs_none in E. Local Opaque do_write_fs.
-        destruct (write_seq_fs fs_none SdocsTmp (pos + x) l (S cnt)) as [[[a2 b2] c2] d2] eqn:E2.
-        inversion E; subst. eapply IH; eauto. }
-      subst d. now inversion E1. }
-    subst r1.
-    destruct (write_index_fs fs_none p) as [o2 r2] eqn:E2.
-    assert (R2 : r2 = ROk).
-    { unfold write_index_fs in E2.
-      destruct (write_sections_fs fs_none (ix_sections p) 16 0) as [[[a b] c] d] eqn:E.
-      assert (d = ROk).
-      { clear E2. revert E. generalize 16%N 0%nat. revert a b c d.
-        induction (ix_sections p) as [|[k x] l IH]; intros a b c d pos cnt E; simpl in E; [now inversion E|].
-        destruct (write_seq_fs fs_none IndexTmp pos x cnt) as [[[a1 b1] c1] d1] eqn:E1'.
-        assert (d1 = ROk).
-        { clear E. revert E1'. revert a1 b1 c1 d1 pos cnt.
-          induction x as [|y x IHx]; intros a1 b1 c1 d1 pos cnt E; simpl in E; [now inversion E|].
-          Local Transparent do_write_fs. unfold do_write_fs, fs_none in E. Local Opaque do_write_fs.
-          destruct (write_seq_fs fs_none IndexTmp (pos + y) x (S cnt)) as [[[a2 b2] c2] d2] eqn:E2.
-          inversion E; subst. eapply IHx; eauto. }
-        subst d1.
-        destruct (write_sections_fs fs_none l b1 c1) as [[[a2 b2] c2] d2] eqn:E2.
-        inversion E; subst. eapply IH; eauto. }
-      subst d.
-      Local Transparent do_write_fs. unfold do_write_fs, fs_none in E2. Local Opaque do_write_fs.
-      now inversion E2. }
-    subst r2. reflexivity. }
-  destruct (seal_fs_spec p fs_none) as [_ K]. specialize (K H).
-  destruct (seal_fs p fs_none) as [a b]. simpl in *. now subst.
+  unfold seal_fs, seal_ops, pre_ops, sorted_docs_fs, sdocs_ops, write_index_fs, index_ops, flat_sizes.
+  rewrite write_sections_fs_none, !do_write_fs_none.
+  destruct (skip_sort p); simpl.
+  - reflexivity.
+  - rewrite write_seq_fs_none. simpl. now rewrite <- !app_assoc.
 Qed.
 
 (* ------------------------------------------------------------------ an error publishes nothing *)
